@@ -263,3 +263,64 @@ func sanitize(s string) string {
 	}
 	return r
 }
+
+// runSession checks a subset of one function's obligations in a single
+// incremental z3 process (push/pop around each goal). Results are advisory:
+// anything not answered `unsat` (resp. `sat` for cover checks) is re-checked
+// standalone by solve().
+func runSession(vc *VC, part []*Obl, dir string, w int) {
+	var b strings.Builder
+	b.WriteString("(set-option :timeout 4000)\n")
+	b.WriteString(vc.header())
+	at := map[int][]*Obl{}
+	for _, o := range part {
+		at[o.LineIdx] = append(at[o.LineIdx], o)
+	}
+	var order []*Obl
+	emitObl := func(o *Obl) {
+		b.WriteString("(push 1)\n(assert " + o.Reach + ")\n")
+		if !o.Cover {
+			b.WriteString("(assert " + sNot(o.Goal) + ")\n")
+		}
+		b.WriteString("(check-sat)\n(pop 1)\n")
+		order = append(order, o)
+	}
+	for i, l := range vc.lines {
+		for _, o := range at[i] {
+			emitObl(o)
+		}
+		b.WriteString(l)
+		b.WriteByte('\n')
+	}
+	for _, o := range at[len(vc.lines)] {
+		emitObl(o)
+	}
+	file := filepath.Join(dir, sanitize(vc.funcName)+fmt.Sprintf(".session%d.smt2", w))
+	if err := os.WriteFile(file, []byte(b.String()), 0o644); err != nil {
+		return
+	}
+	start := time.Now()
+	ctx, cancel := context.WithTimeout(context.Background(), time.Duration(5*len(order)+30)*time.Second)
+	defer cancel()
+	cmd := exec.CommandContext(ctx, "z3-new", file)
+	var out bytes.Buffer
+	cmd.Stdout = &out
+	_ = cmd.Run()
+	ms := time.Since(start).Milliseconds()
+	var answers []string
+	for _, l := range strings.Split(out.String(), "\n") {
+		l = strings.TrimSpace(l)
+		switch l {
+		case "sat", "unsat", "unknown", "timeout":
+			answers = append(answers, l)
+		}
+	}
+	per := ms / int64(len(order)+1)
+	for i, o := range order {
+		if i < len(answers) {
+			o.Result = SolverResult{Status: answers[i], Backend: "z3-5.1.0(session)", Ms: per}
+		} else {
+			o.Result = SolverResult{Status: "unknown", Backend: "z3-5.1.0(session)", Ms: per}
+		}
+	}
+}
